@@ -118,7 +118,7 @@ Theorem parafac2_to_slice_spec (w : option tensor) (A B C : tensor) ps Js shp I 
   exists t, parafac2_to_slice Op w [A; B; C] ps i = Ok t /\ shape t = [nth i Js 0; K] /\
     forall j k, j < nth i Js 0 -> k < K -> get2 t j k = p2_entry w A B C (nth i ps dflt) Q R i j k.
 Proof.
-  intros Hv HA HB HC Hw Hps Hl Hi. unfold parafac2_to_slice. rewrite Hv. cbn [rbind].
+  intros Hv HA HB HC Hw Hps Hl Hi. unfold parafac2_to_slice, parafac2_to_slice_from. rewrite Hv. cbn [rbind].
   destruct (Forall2_nth_shape ps Js Q Hps) as [_ Hn].
   apply (p2_slice_raw_spec w A B C ps I Q R K (nth i Js 0) i); auto; try lia. apply Hn. lia.
 Qed.
@@ -137,7 +137,7 @@ Proof.
   destruct (Forall2_nth_shape ps Js Q Hps) as [HlJ Hn].
   assert (Hlens : map (nrows (F:=F)) ps = Js).
   { clear - Hps. induction Hps as [|P J ps Js HP Hrest IH]; [reflexivity|]. cbn [map]. rewrite IH. unfold nrows. now rewrite HP. }
-  unfold parafac2_to_tensor, parafac2_to_slices. rewrite Hv. cbn [rbind].
+  unfold parafac2_to_tensor, parafac2_to_tensor_from, parafac2_to_slices_from. rewrite Hv. cbn [rbind].
   assert (HA' : shape (opt_scale Op w A) = [I; R]) by (now apply (shape_opt_scale F)).
   unfold nrows at 1. rewrite HA. cbn [nth].
   destruct (collect_map_ok (fun i => p2_slice_raw Op None (opt_scale Op w A) B C ps i)
